@@ -312,6 +312,21 @@ def case_line(c):
     return s
 
 
+def compact_case(c):
+    """run-length form of a case for reading: 'T <pname> | <tname> 8192 x M:m:- E ...'"""
+    s = "T %s" % c["pname"]
+    for tn, ops in c["threads"]:
+        s += " | %s" % tn
+        i = 0
+        while i < len(ops):
+            j = i
+            while j < len(ops) and ops[j] == ops[i]:
+                j += 1
+            s += " %s" % ops[i] if j - i == 1 else " %dx(%s)" % (j - i, ops[i])
+            i = j
+    return s[:3000]
+
+
 def parse_case_line(l):
     t = l.split()
     c = {"tag": "corpus", "pname": t[1], "threads": []}
@@ -502,6 +517,19 @@ def shrink_trace(ctx, exe, c, od):
     for k in range(len(ths)):
         tn, ops = cur["threads"][k]
         if len(ops) > 4000:
+            # too long for delta debugging: try the canonical script "n markers" and bisect the smallest n that
+            # still fails (chunk-boundary defects fail from some event count on)
+            nev = sum(1 for o in ops if o != "S")
+            with_k = lambda o, k=k, tn=tn: dict(cur, threads=cur["threads"][:k] + [(tn, o)] + cur["threads"][k + 1:])
+            if fails(with_k(["M:m:-"] * nev)):
+                lo, hi = 0, nev            # fails at hi, assumed not to fail at lo
+                while hi - lo > 1:
+                    mid = (lo + hi) // 2
+                    if fails(with_k(["M:m:-"] * mid)):
+                        hi = mid
+                    else:
+                        lo = mid
+                cur["threads"] = cur["threads"][:k] + [(tn, ["M:m:-"] * hi)] + cur["threads"][k + 1:]
             continue
         small = vlib.shrink_list(ops, lambda o, k=k, tn=tn: fails(dict(cur, threads=cur["threads"][:k] + [(tn, o)] + cur["threads"][k + 1:])),
                                  max_rounds=120)
@@ -509,6 +537,37 @@ def shrink_trace(ctx, exe, c, od):
     if cur["pname"] != "-" and fails(dict(cur, pname="-")):
         cur["pname"] = "-"
     return cur
+
+
+CHUNK = 8192      # THREAD_EVENT_CHUNK_SIZE = Model.chunk_size
+
+
+def expected_chunks(n):
+    return [CHUNK] * (n // CHUNK) + ([n % CHUNK] if n % CHUNK else [])
+
+
+def shrink_chunk_overflow(ctx, exe, c, k, od, orig_info):
+    """smallest single-thread script of n markers whose recording has a chunk above CHUNK events."""
+    def probe(n):
+        cc = {"tag": "shrunk", "pname": "-", "threads": [("t0", ["M:m:-"] * n)], "balanced": True}
+        rc, res, err = run_harness_trace(ctx, exe, [cc], od)
+        if rc != 0 or not res or not res[0][1]:
+            return None, cc
+        sizes, cap, _ = res[0][1][0]
+        return ((max(sizes), sizes, cap) if sizes and max(sizes) > CHUNK else None), cc
+    nev = sum(1 for o in c["threads"][k][1] if o != "S")
+    info, cc = probe(nev)
+    if info is None:
+        return c, orig_info            # the canonical script does not reproduce it: report the original case
+    lo, hi, best = 0, nev, (info, cc)
+    while hi - lo > 1:
+        mid = (lo + hi) // 2
+        inf, cm = probe(mid)
+        if inf is not None:
+            hi, best = mid, (inf, cm)
+        else:
+            lo = mid
+    return best[1], best[0]
 
 
 def run_trace(ctx, model, exe):
@@ -524,6 +583,7 @@ def run_trace(ctx, model, exe):
     ctx.count(len(res))
     mlines, midx, texts, orders = [], [], {}, {}
     reported = set()
+    overcases = set()
     hist = {}
     for i, (path, infos) in enumerate(res):
         c = cases[i]
@@ -546,9 +606,24 @@ def run_trace(ctx, model, exe):
             t2 = open(res2[0][0], errors="replace").read() if res2 else text
             pb2, _ = trace_oracle(t2, small)
             ctx.violation("saveLog: %s" % (pb2 or pb)[0],
-                          {"case": case_line(small)[:3000], "file": t2[:3000], "problems": (pb2 or pb)[:5],
+                          {"case": case_line(small), "case_compact": compact_case(small), "file": t2[:3000], "file_tail": t2[-600:],
+                           "problems": (pb2 or pb)[:5],
                            "required": "a well-formed JSON array holding, per thread, every recorded event in recording order, ends matched with the innermost open begin",
                            "original_case_tag": c["tag"], "recorded_events": sum(len(expected_events(o)) for _, o in small["threads"])})
+        over = [(k, sz, inf[1]) for k, inf in enumerate(infos) for sz in inf[0] if sz > CHUNK]
+        if over:
+            overcases.add(i)
+            if "chunk-capacity" not in reported:
+                reported.add("chunk-capacity")
+                k, sz, cap = over[0]
+                small, sinfo = shrink_chunk_overflow(ctx, exe, c, k, os.path.join(ctx.build, "trace_shrink"), (sz, infos[k][0], cap))
+                ctx.violation("ThreadEventList: a chunk of the event list holds %d events, more than the %d it reserves (the vector grew past its "
+                              "reserved capacity and was reallocated)" % (sinfo[0], CHUNK),
+                              {"case": case_line(small), "case_compact": compact_case(small),
+                               "observed": "chunk sizes %s, smallest chunk capacity %s" % (sinfo[1], sinfo[2]),
+                               "required": "every chunk holds between 1 and %d events; a new chunk is opened when the last one is full "
+                                           "(chunk sizes %s)" % (CHUNK, expected_chunks(sum(sinfo[1]))),
+                               "original_case_tag": c["tag"]})
         if len(ctx.samples) < 5 and c["tag"] in ("pair-long", "nested-2"):
             ctx.sample({"case": case_line(c), "file": text[:400]})
         if order is None:
@@ -585,7 +660,7 @@ def run_trace(ctx, model, exe):
                 chunks[key] = chunks.get(key, 0) + 1
         if mjson != "1" and not pb:
             ctx.broken.append("the Coq recogniser rejects the model's log for case %s although python json accepts the file" % c["tag"])
-        if pb:
+        if pb or i in overcases:
             continue   # already reported as a violation
         if ntext != mtext or hs != msizes:
             ncorr += 1
@@ -597,6 +672,7 @@ def run_trace(ctx, model, exe):
     ctx.cov["trace_mismatches"] = ncorr
     ctx.cov["trace_long_intervals_seen"] = nlong
     ctx.cov["chunk_kinds_seen"] = chunks
+    ctx.cov["chunks_over_capacity"] = len(overcases)
     ctx.cov["trace_threads_histogram"] = {str(n): sum(1 for c in cases if len(c["threads"]) == n) for n in range(0, 9)}
 
 
@@ -618,7 +694,8 @@ def run(ctx):
                     "between cases and to read chunk sizes/clock values) + generators/readers in props/C20/check.py (g++ -O1, ASan+UBSan)",
                     "modelled, not verified: fopen/fprintf/fwrite/ofstream/seekp, alloca row buffer, std::list/std::vector/unordered_map, the pointer-keyed string cache, "
                     "steady_clock and getrusage (clock values are inputs of the model; cpuUtilization text is an opaque token assumed to be a JSON number)"]
-    ctx.assumptions += ["pixel buffers hold w*h pixels of PIXEL_COMP components; sizeof(PIXEL_T) = PIXEL_COMP*sizeof(COMP_T) (static_assert in the harness); 0 < w,h and w*h*4 fits int",
+    ctx.assumptions += ["image theorems: every input component fits sizeof(COMP_T) bytes (Spec.comps_fit); the file reader of Spec.v is the reference decoder",
+                        "pixel buffers hold w*h pixels of PIXEL_COMP components; sizeof(PIXEL_T) = PIXEL_COMP*sizeof(COMP_T) (static_assert in the harness); 0 < w,h and w*h*4 fits int",
                         "names, categories, thread and process names contain no '\"', '\\\\' or control characters (saveLog does no escaping)",
                         "steady_clock is monotone (an end is not earlier than its begin); the printed cpuUtilization is a finite number",
                         "begin/end histories are properly nested per thread (an END without an open BEGIN makes saveLog drop the rest of that chunk: modelled, excluded from completeness)"]
